@@ -2708,18 +2708,18 @@ class Composite(Runner):
 
                 else:
                     raise exceptions.RallyAssertionError("Requests structure must contain [stream] or [operation-type].")
+
+            # complete any outstanding streams
+            if streams:
+                streams_timings = await asyncio.gather(*streams)
+                for stream_timings in streams_timings:
+                    timings += stream_timings
         except BaseException:
             # stop all already created tasks in case of exceptions
             for s in streams:
                 if not s.done():
                     s.cancel()
             raise
-
-        # complete any outstanding streams
-        if streams:
-            streams_timings = await asyncio.gather(*streams)
-            for stream_timings in streams_timings:
-                timings += stream_timings
         return timings
 
     async def __call__(self, es, params):
